@@ -65,7 +65,7 @@ def main(c):
         # ---- stage 2: coverage-guided generation (clang libFuzzer build of the same API program). The fuzzer only generates:
         # every unit it adds to the corpus joins the replay lists below; artifacts are re-run one per process and classified.
         fz = vlib.build_driver('fz_reader', 'fuzz')
-        fzd = os.path.join(base, 'fz'); cdir = os.path.join(fzd, 'corpus'); adir = os.path.join(fzd, 'art'); os.makedirs(cdir); os.makedirs(adir)
+        fzd = os.path.join(base, 'fz'); cdir = os.path.join(fzd, 'corpus'); os.makedirs(cdir)
         seednames = set()
         for i, (d, f) in enumerate(corpus):
             nm = hashlib.sha1(d).hexdigest(); seednames.add(nm); open(os.path.join(cdir, nm), 'wb').write(d)
@@ -75,37 +75,13 @@ def main(c):
                 nm = hashlib.sha1(d).hexdigest(); seednames.add(nm); open(os.path.join(cdir, nm), 'wb').write(d)
         jobs = 48 if thorough else 16
         runs = 400000 if thorough else 25000
-        fenv = dict(env, FZ_SEED=str(c.seed), ASAN_OPTIONS=env['ASAN_OPTIONS'] + ':handle_abort=1')
-        r = vlib.run([fz, cdir, '-runs=%d' % runs, '-jobs=%d' % jobs, '-workers=%d' % vlib.NCPU, '-max_len=65536', '-timeout=25', '-rss_limit_mb=4096', '-artifact_prefix=%s/' % adir,
-                      '-dict=%s' % os.path.join(vlib.REPO, 'fuzz', 'parquet.dict'), '-seed=%d' % (c.seed * 7 + 1), '-print_final_stats=1'], env=fenv, cwd=fzd, timeout=5 * 3600)
-        execd = 0
-        for lg in os.listdir(fzd):
-            if lg.startswith('fuzz-') and lg.endswith('.log'):
-                m = re.search(r'stat::number_of_executed_units: (\d+)', open(os.path.join(fzd, lg), errors='replace').read())
-                execd += int(m.group(1)) if m else 0
-        c.count('libfuzzer_executions', execd)
+        execd, unresolved = vlib.run_libfuzzer(c, fz, fzd, cdir, runs, jobs, 65536, env=dict(env, FZ_SEED=str(c.seed)), extra=['-dict=%s' % os.path.join(vlib.REPO, 'fuzz', 'parquet.dict')], seed=c.seed * 7 + 1)
         newunits = [fn for fn in sorted(os.listdir(cdir)) if fn not in seednames]
         c.count('libfuzzer_new_corpus_units', len(newunits))
         for k, fn in enumerate(newunits):
             p = os.path.join(cdir, fn); lists[k % nsh].append(p); classes[p] = 'libfuzzer-corpus-unit'; c.count('class_libfuzzer-corpus-unit')
-        for fn in sorted(os.listdir(adir)):
-            ap = os.path.join(adir, fn); kind = fn.split('-')[0]
-            c.count('libfuzzer_artifacts_' + kind)
-            rr = vlib.run([fz, ap, '-timeout=25', '-rss_limit_mb=4096'], env=fenv, cwd=fzd, timeout=600)
-            err = rr.stderr.decode('latin1')
-            mc = re.search(r'^API-CONTRACT (\S+) (.*)$', err, re.M)
-            key, adv = vlib.classify_sanitizer(err, rr.returncode)
-            if mc:
-                c.violation(mc.group(1), 'libFuzzer artifact %s: %s' % (fn, mc.group(2)), files={'input.bin': open(ap, 'rb').read()})
-            elif key and 'HARNESS/' not in key:
-                c.violation(key, 'libFuzzer artifact %s (%d bytes)' % (fn, os.path.getsize(ap)), files={'input.bin': open(ap, 'rb').read()}, text=err)
-            elif kind == 'timeout' and 'ALARM' in err:
-                c.violation('hang:reader:libfuzzer', 'libFuzzer artifact %s needs more than 25 s' % fn, files={'input.bin': open(ap, 'rb').read()}, text=err)
-            elif key:
-                c.fail_harness('libFuzzer artifact %s: sanitizer report inside the harness: %s' % (fn, err[-500:]))
-            else:
-                # not reproducible one-per-process in the fuzz build: still goes through the gcc replay below
-                p = ap; lists[0].append(p); classes[p] = 'libfuzzer-artifact-' + kind; c.count('libfuzzer_artifacts_not_reproduced_in_isolation')
+        for ap, kind in unresolved:      # not reproducible one-per-process in the fuzz build: still goes through the gcc replay below
+            lists[0].append(ap); classes[ap] = 'libfuzzer-artifact-' + kind
 
         def run_list(si):
             paths = lists[si]
